@@ -92,26 +92,35 @@ def check(ctx):
         V.coq_build(ctx, [d.replace(".", "/") + ".vo" for d in deps], timeout=900)
         wd = os.path.join(V.BUILD, "tie_leaf")
         os.makedirs(wd, exist_ok=True)
-        for name, b in blocks:
+        m0 = re.search(r'File "\./([^"]+)", line (\d+)[^\n]*\n((?:.*\n){0,40})', out)
+        if m0:
+            res["error_at"] = "%s:%s" % (m0.group(1), m0.group(2))
+            res["error"] = m0.group(3)[:3000]
+
+        def one(nb):
+            name, b = nb
             f = os.path.join(wd, "Tie_%s.v" % name)
             open(f, "w").write(header + "\n" + b + "\n")
             rc, o = V.sh(["coqc", "-Q", V.COQ, "Draco", "-w",
                           "-notation-overridden,-deprecated-hint-without-locality,-deprecated-instance-without-locality,-ambiguous-paths",
                           os.path.basename(f)], cwd=wd, timeout=600)
             if rc == 0 and not _axioms_ok(o):
-                res["blocks"][name] = {"status": "proved", "lemmas": _lemmas(b), "functions": _gen_names(b)}
-            else:
-                m = re.search(r'File "[^"]+", line (\d+)[^\n]*\n((?:.*\n?){0,12})', o)
-                lemma = None
-                if m:
-                    lines = (header + "\n" + b).splitlines()
-                    for i in range(min(int(m.group(1)), len(lines)) - 1, -1, -1):
-                        mm = re.match(r"\s*(?:Lemma|Theorem|Corollary)\s+([A-Za-z0-9_']+)", lines[i])
-                        if mm:
-                            lemma = mm.group(1)
-                            break
-                res["blocks"][name] = {"status": "failed", "lemma": lemma, "functions": _gen_names(b),
-                                       "error": (m.group(2) if m else o[-1500:])[:1500]}
+                return name, {"status": "proved", "lemmas": _lemmas(b), "functions": _gen_names(b)}
+            m = re.search(r'File "[^"]+", line (\d+)[^\n]*\n((?:.*\n?){0,40})', o)
+            lemma = None
+            if m:
+                lines = (header + "\n" + b).splitlines()
+                for i in range(min(int(m.group(1)), len(lines)) - 1, -1, -1):
+                    mm = re.match(r"\s*(?:Lemma|Theorem|Corollary)\s+([A-Za-z0-9_']+)", lines[i])
+                    if mm:
+                        lemma = mm.group(1)
+                        break
+            return name, {"status": "failed", "lemma": lemma, "functions": _gen_names(b),
+                          "error": (m.group(2) if m else o[-1500:])[:1500]}
+        from concurrent.futures import ThreadPoolExecutor
+        with ThreadPoolExecutor(max_workers=max(2, V.NPROC // 2)) as ex:
+            for name, r1 in ex.map(one, blocks):
+                res["blocks"][name] = r1
     res["seconds"] = round(time.time() - t0, 2)
     _cache["r"] = res
     return res
@@ -139,6 +148,7 @@ def record(ctx, names):
         "translator_seconds": r["translator"].get("seconds"), "tie_seconds": r["seconds"],
         "translator_ok": r["translator"]["ok"], "translator_unsupported": unsupported,
         "errors": {n: r["blocks"][n].get("error", "")[:600] for n in failed if n in r["blocks"]},
+        "first_error_at": r.get("error_at"),
         "policy": "a failing Tie lemma / UNSUPPORTED function alone is not a violation while the correspondence harness agrees",
     }
     ctx.say("tie_leaf: %d/%d proved%s" % (len(names) - len(failed), len(names),
@@ -146,6 +156,8 @@ def record(ctx, names):
     if failed and ctx.cov.get("disagreements", 0) > 0:
         V.violation(ctx, "proof", {
             "file": r["file"], "functions": failed, "errors": ctx.cov["tie_leaf"]["errors"],
+            "theorem": [r["blocks"][n].get("lemma") for n in failed if n in r["blocks"]],
+            "first_error_at": r.get("error_at"), "coqc_error": (r.get("error") or "")[:3000],
             "note": "the definition regenerated from the current C++ source is no longer provably equal to the model "
                     "AND the correspondence harness disagrees: the change of behaviour is found both ways"},
             no_input=True)
